@@ -92,7 +92,10 @@ def astype(ev, a, dtype, lineno):
             if not is_z3(x):
                 return int(x)
             return V.I(x)
-        return ev.map1(to_i, a, kind="i")
+        r_ = ev.map1(to_i, a, kind="i")
+        if is_array(a) and a.kind == "b" and not isinstance(a, Comp):
+            r_._mask_src = a
+        return r_
 
     def to_f(x):
         if isinstance(x, bool) or (is_z3(x) and z3.is_bool(x)):
@@ -186,6 +189,8 @@ def call(ev, name, args, kwargs, lineno, env):
         a = args[0]
         if is_array(a):
             neg = ev.map1(bnot, a, "b")
+            if isinstance(a, Arr) and isinstance(neg, Arr):
+                neg.__dict__["_not_of"] = a
             # all(a) == not any(~a)
             return NotAny(neg)
         return a
@@ -228,8 +233,13 @@ def call(ev, name, args, kwargs, lineno, env):
             return Comp(a.mask, lambda j: member(coll, af(j)), "b")
         return Arr(a.n, lambda j: member(coll, af(j)), "b")
     if name == "concatenate":
-        parts = args[0]
-        return Bag(list(parts))
+        parts = list(args[0])
+        if all(is_array(p) for p in parts) and parts:
+            for p in parts:
+                if isinstance(p, Comp):
+                    ev.add_sel_axioms(p.mask)
+            return ConcatArr(parts)
+        return Bag(parts)
     if name == "setdiff1d":
         a, b = args
         return SetVal(lambda x: band(member(a, x), bnot(member(b, x))))
@@ -264,6 +274,13 @@ def call(ev, name, args, kwargs, lineno, env):
             return Arr(c.n, lambda j: ite(cf(j), xf(j), yf(j)), "f")
         return ite(c, x, y)
     if name == "copy":
+        if isinstance(args[0], PitComp):
+            pc = args[0]
+            ev.add_sel_axioms(pc.mask)
+            sel_, bf_ = V.sel_fn(pc.mask), pc.base.snapshot_f()
+            out = Pit(V.count_term(pc.mask), lambda k, c: bf_(sel_(V.I(k)), c), pc.ncols)
+            out.compress_of = (pc.base, pc.mask)
+            return out
         return method(ev, args[0], "copy", [], {}, lineno, env)
     if name in ("int32", "int64"):
         x = args[0]
@@ -304,6 +321,13 @@ def call(ev, name, args, kwargs, lineno, env):
         if is_scalar(a):
             return ()
         raise Unsupported("np.shape")
+    if name == "cumsum":
+        a = args[0]
+        if "out" in kwargs:
+            raise Unsupported("np.cumsum(out=...)")
+        if is_array(a) and not isinstance(a, Comp) and a.kind in ("b", "i"):
+            return cumsum_mask(ev, a)
+        raise Unsupported("np.cumsum of a non-mask array (line %d)" % lineno)
     if name == "nan_to_num":
         if kwargs.get("copy", True) is False:
             raise Unsupported("np.nan_to_num(copy=False)")
@@ -332,6 +356,25 @@ def _empty(n, kind):
     else:
         uf = z3.Function("empty%d" % _empty_ctr[0], z3.IntSort(), z3.RealSort())
     return Arr(n, lambda j: uf(V.I(j)), kind)
+
+
+def cumsum_mask(ev, a):
+    """np.cumsum(mask): number of True entries up to and including position j.  For a True position
+    this is rank(j) + 1, rank being the position of j in the compress of the mask (A4)."""
+    src = a.__dict__.get("_mask_src", a)       # astype(int32) of a mask keeps the mask
+    ev.add_sel_axioms(src)
+    cs = z3.Function("cumsum!%d" % next(V._counter), z3.IntSort(), z3.IntSort())
+    sel = V.sel_fn(src)
+    rank = z3.Function("rank!%s" % sel.name(), z3.IntSort(), z3.IntSort())
+    j = z3.Int("j!cs")
+    n = src.n
+    ev.path.facts.append(z3.ForAll([j], z3.Implies(z3.And(j >= 0, B(compare("<", j, n)), B(src.f(j))),
+                                                   cs(j) == rank(j) + 1)))
+    ev.path.facts.append(z3.ForAll([j], z3.Implies(z3.And(j >= 0, B(compare("<", j, n))),
+                                                   z3.And(cs(j) >= 0, cs(j) <= V.count_term(src)))))
+    out = Arr(n, lambda jj: cs(V.I(jj)), "i")
+    out._cumsum_of = src
+    return out
 
 
 def where_pairs(ev, pm, lineno):
@@ -741,7 +784,9 @@ def method(ev, recv, name, args, kwargs, lineno, env):
         if name == "round":
             return recv
         if name in ("max", "min"):
-            return ArrReduce(name, recv)
+            return reduce_extreme(ev, name, recv)
+        if name == "cumsum":
+            return call(ev, "cumsum", [recv], kwargs, lineno, env)
         raise Unsupported("array method %s (line %d)" % (name, lineno))
     if isinstance(recv, dict):
         if name == "get":
